@@ -541,16 +541,20 @@ Definition init_st (total : nat) (limit c0 o : Z) (progs : list (nat * list op))
 (* ------------------------------------------------------------------ observations *)
 Definition total_len (s : st) : Z := fold_right (fun sh a => Z.of_nat (length (ents sh)) + a) 0 (shs s).
 
-(* PageCache::data as a pure function of the state *)
-Definition cache_data (s : st) (k : Z) : option Z :=
-  match nth_error (shs s) (shard_of k) with
+(* index lookup followed by entries[idx], as every PageCache accessor does *)
+Definition lookup (sh : shard) (k : Z) : option entry :=
+  match idx_get (idx sh) k with
+  | Some j => nth_error (ents sh) j
   | None => None
-  | Some sh =>
-      match idx_get (idx sh) k with
-      | None => None
-      | Some j => match nth_error (ents sh) j with Some e => Some (edata e) | None => None end
-      end
   end.
+Definition slookup (ss : list shard) (k : Z) : option entry :=
+  match nth_error ss (shard_of k) with
+  | Some sh => lookup sh k
+  | None => None
+  end.
+
+(* PageCache::data as a pure function of the state *)
+Definition cache_data (s : st) (k : Z) : option Z := option_map edata (slookup (shs s) k).
 
 Definition quiescent (s : st) : Prop := forall t th, In (t, th) (thr s) -> pc th = PIdle.
 
@@ -562,3 +566,36 @@ Definition idx_ok (sh : shard) : Prop :=
 Definition hand_ok (sh : shard) : Prop := (hand sh < Nat.max 1 (length (ents sh)))%nat.
 Definition cap_ok (sh : shard) : Prop := (length (ents sh) <= cap sh)%nat.
 Definition shard_wf (sh : shard) : Prop := idx_ok sh /\ hand_ok sh /\ cap_ok sh.
+
+(* every shard is well-formed, there are exactly 64, and entries live in the shard of their key *)
+Definition shards_ok (s : st) : Prop :=
+  length (shs s) = NSH /\
+  forall i sh, nth_error (shs s) i = Some sh ->
+    shard_wf sh /\ forall e, In e (ents sh) -> shard_of (ekey e) = i.
+
+(* PageRefs outstanding for key k, over all threads *)
+Definition count_key (l : list Z) (k : Z) : Z := Z.of_nat (length (filter (Z.eqb k) l)).
+Definition total_held (ths : list (nat * thread)) (k : Z) : Z :=
+  fold_right (fun p a => count_key (held (snd p)) k + a) 0 ths.
+
+(* pin counts are exactly the outstanding PageRefs: a page for which some thread holds a PageRef is
+   resident with that many pins, and a page that is not resident has no PageRef *)
+Definition pin_at (s : st) (k : Z) : Z := match slookup (shs s) k with Some e => epin e | None => 0 end.
+Definition pins_ok (s : st) : Prop := forall k, pin_at s k = total_held (thr s) k.
+
+Definition is_clear_pc (p : pcT) : bool :=
+  match p with
+  | PClLen _ _ | PCl502 _ | PClSh _ _ => true
+  | PRel0 _ (KFinish _) | PRel1 _ _ (KFinish _) => true
+  | _ => false
+  end.
+Definition no_clear_prog (p : list op) : Prop := ~ In OClear p.
+Definition no_clear (s : st) : Prop :=
+  forall t th, In (t, th) (thr s) -> no_clear_prog (prog th) /\ is_clear_pc (pc th) = false.
+
+(* contents: whatever data(k) returns is the value last written for k *)
+Definition contents_ok (s : st) : Prop :=
+  forall k v, cache_data s k = Some v -> glast_get (glast s) k = Some v.
+
+Definition no_panic_results (s : st) : Prop :=
+  forall t th, In (t, th) (thr s) -> ~ In RPanic (res th).
